@@ -172,7 +172,8 @@ inductive Cond where
 /-- the text of generated pages: parameters -/
 structure Pages where
   tmpl : Nat → Bytes          -- default error template for a status
-  custom : Option Bytes       -- `error_page.default` callable returning these bytes
+  custom : Option Body        -- `error_page.default` callable: bytes/str (a list body) or an iterator
+                              -- (wrapped in UTF8StreamEncoder: the chunks are the encoded ones)
   redir : Nat → Bytes         -- redirect note
   partHead : Nat → Nat → Bytes  -- multipart part header for a range
   partTail : Bytes            -- closing boundary
@@ -322,8 +323,8 @@ def setError (pg : Pages) (code : Nat) (r : Resp) : Out :=
   let (content, h, src) :=
     match pg.custom with
     | some b => (b, h, Src.customPage)
-    | none => (pg.tmpl code, h.set .contentType (.ctype .textHtml (some .utf8)), Src.tmplPage)
-  ieUnfriendly code { r with hdrs := h, status := some code, body := bytesBody content, tee := false,
+    | none => (bytesBody (pg.tmpl code), h.set .contentType (.ctype .textHtml (some .utf8)), Src.tmplPage)
+  ieUnfriendly code { r with hdrs := h, status := some code, body := content, tee := false,
                              src := src, gz := false }
 
 def notModifiedKeys : List HKey :=
@@ -473,6 +474,7 @@ inductive Shape where
   | genV (cs : List Chunk)             -- a generator (also the json_out handler: iterencode chunks)
   | fileV (b : Bytes)                  -- an object with .read()
   | staticV (b : Bytes)                -- return serve_file(path) on a file with this content
+  | fileObjV (b : Bytes)               -- return serve_fileobj(io.BytesIO(...)): length unknown
   deriving DecidableEq, Repr
 
 inductive HStatus where
@@ -499,6 +501,7 @@ structure Tools where
   flatten : Bool := false
   stream : Bool := false
   probe : Option (Nat × ProbeAct × Bool) := none     -- (priority, action, once)
+  errFails : Bool := false         -- request.error_response is a callable that raises
 
 structure Plan where
   h : Handler
@@ -513,6 +516,7 @@ def prepareIter : Shape → Body
   | .genV cs => ⟨.iter, cs⟩
   | .fileV b => ⟨.iter, oneChunk b⟩
   | .staticV b => ⟨.iter, oneChunk b⟩
+  | .fileObjV b => ⟨.iter, oneChunk b⟩
 
 /-- ResponseBody.__set__: a `str`, or a `list` containing a `str`, is a ValueError -/
 def setterRejects (b : Body) : Bool :=
@@ -623,6 +627,13 @@ def handlerStatic (pg : Pages) (rq : Req) (p : Plan) (b : Bytes) (r : Resp) : Ou
     -- the value returned is response.body itself (already prepared)
     if p.t.encode then encodeStage rq r r.body else (r, none)
 
+/-- a handler that returns `serve_fileobj(fileobj)` for an object without a file descriptor: the length
+    is unknown, `Content-Length: None` is stored (finalize computes or pops it), no ranges -/
+def handlerFileObj (rq : Req) (p : Plan) (b : Bytes) (r : Resp) : Out :=
+  let r := withStatus p.h.st (withOwnCL p.h.setCL r)
+  let r := { r with hdrs := r.hdrs.set .contentLength .pyNone, body := ⟨.iter, oneChunk b⟩ }
+  if p.t.encode then encodeStage rq r r.body else (r, none)
+
 /-- any other handler: own Content-Length, status / raise, then the returned value -/
 def handlerPlain (rq : Req) (p : Plan) (shape : Shape) (r : Resp) : Out :=
   let r := match p.h.setCL with
@@ -641,6 +652,7 @@ def handlerStage (pg : Pages) (rq : Req) (p : Plan) (r : Resp) : Out :=
                     stream := r.stream || p.h.setStream, src := .handler }
   match p.h.shape with
   | .staticV b => handlerStatic pg rq p b r
+  | .fileObjV b => handlerFileObj rq p b r
   | shape => handlerPlain rq p shape r
 
 /-! ### caching.get, the request pipeline -/
@@ -696,7 +708,8 @@ def hooksAndFinalize (pg : Pages) (rq : Req) (cached : Bool) (hooks : List Step)
 
 /-- `handle_error`: error_response = HTTPError(500).set_response, then finalize.
     `none` = an exception escaped (run() then answers with bare_error). -/
-def handleError (pg : Pages) (rq : Req) (s : St) : Option St :=
+def handleError (pg : Pages) (rq : Req) (fails : Bool) (s : St) : Option St :=
+  if fails then none else
   match setError pg 500 s.r with
   | (_, some _) => none
   | (r, none) =>
@@ -728,23 +741,24 @@ def firstPass (pg : Pages) (rq : Req) (p : Plan) (cache : Option Cache) :
 /-- the `except` clauses of `respond`: HTTPError / HTTPRedirect -> set_response, the before_finalize
     hooks again, finalize; anything else (also from inside that clause) -> handle_error.
     `none` = an exception escaped to `run`. -/
-def recover (pg : Pages) (rq : Req) (cached : Bool) (hooks : List Step) (first : St × Option Exn) : Option St :=
+def recover (pg : Pages) (rq : Req) (fails cached : Bool) (hooks : List Step) (first : St × Option Exn) :
+    Option St :=
   match first with
   | (s, none) => some s
-  | (s, some .exc) => handleError pg rq s
+  | (s, some .exc) => handleError pg rq fails s
   | (s, some e) =>
     match setResponse pg e s.r with
-    | (r, some _) => handleError pg rq { s with r := r }
+    | (r, some _) => handleError pg rq fails { s with r := r }
     | (r, none) =>
       match hooksAndFinalize pg rq cached hooks { s with r := r } with
       | (s, none) => some s
-      | (s, some _) => handleError pg rq s
+      | (s, some _) => handleError pg rq fails s
 
 /-- `Request.respond` (+ the last-resort branch of `run`): the finalized response, before the HEAD
     removal -/
 def respond (pg : Pages) (rq : Req) (p : Plan) (cache : Option Cache) : St × Bool :=
   let (first, cached, hooks) := firstPass pg rq p cache
-  match recover pg rq cached hooks first with
+  match recover pg rq p.t.errFails cached hooks first with
   | some s => (s, cached)
   | none => (⟨bareResp pg first.1.r, first.1.cache⟩, cached)
 
